@@ -6,6 +6,7 @@ package c13
 
 import (
 	"bytes"
+	"crypto/sha1"
 	"encoding/json"
 	"fmt"
 	"io"
@@ -311,9 +312,16 @@ func bfs(c *mc.Ctx, s Script, depth int) {
 	ops := opsFor(s)
 	type node struct{ path []Op }
 	var smu sync.Mutex
-	seen := map[string]bool{}
+	// visited set on a 16-byte hash of the canonical key (a collision could only drop a state, never raise an alarm)
+	h16 := func(k string) [16]byte {
+		sum := sha1.Sum([]byte(k))
+		var o [16]byte
+		copy(o[:], sum[:16])
+		return o
+	}
+	seen := map[[16]byte]struct{}{}
 	m0 := newMachine(s)
-	seen[m0.key()] = true
+	seen[h16(m0.key())] = struct{}{}
 	frontier := []node{{nil}}
 	var states, transitions, layoutChanges int64 = 1, 0, 0
 	completed := 0
@@ -340,9 +348,12 @@ func bfs(c *mc.Ctx, s Script, depth int) {
 				if key != before {
 					lc++
 				}
+				m.peeks = nil
+				netsim.Release(m.conn)
+				hk := h16(key)
 				smu.Lock()
-				if !seen[key] {
-					seen[key] = true
+				if _, ok := seen[hk]; !ok {
+					seen[hk] = struct{}{}
 					states++
 					next = append(next, node{append(append([]Op{}, nd.path...), o)})
 				}
@@ -353,8 +364,9 @@ func bfs(c *mc.Ctx, s Script, depth int) {
 			layoutChanges += lc
 			smu.Unlock()
 		})
-		if c.Expired() {
+		if c.Expired() || states > maxStatesPerScript {
 			capped = true
+			c.Cap(fmt.Sprintf("%s/%d stopped inside depth %d with %d states", s.Name, s.Size, d+1, states))
 		}
 		if capped {
 			c.Extra("capped_"+s.Name+fmt.Sprint(s.Size), fmt.Sprintf("stopped inside depth %d", d+1))
@@ -372,6 +384,9 @@ func bfs(c *mc.Ctx, s Script, depth int) {
 	depthDone[fmt.Sprintf("%s/%d", s.Name, s.Size)] = completed
 	mu.Unlock()
 }
+
+// memory bound of one BFS: the frontier holds one operation path per state
+const maxStatesPerScript = 6000000
 
 var (
 	mu        sync.Mutex
